@@ -470,8 +470,8 @@ func runC10(r *kit.Run) {
 	nBlocks := 1 + c.Intn("blocks", 3)
 	// where the one copy of this run is taken
 	copyBlock := c.Intn("copy-block", nBlocks)
-	copyPos := c.Intn("copy-pos", 5)  // 0 none, 1 mid-transaction, 2 after a transaction boundary, 3 after the block's IntermediateRoot, 4 after Commit
-	copySeg := c.Intn("copy-seg", 3)  // which transaction of the block
+	copyPos := c.Intn("copy-pos", 5) // 0 none, 1 mid-transaction, 2 after a transaction boundary, 3 after the block's IntermediateRoot, 4 after Commit
+	copySeg := c.Intn("copy-seg", 3) // which transaction of the block
 	copySame := c.Chance("copy-same-ops", 1, 2)
 	var plan []*c10Block
 	var sinceCommit []*c10Block // blocks executed since the last commit (to re-import after a crash)
